@@ -89,11 +89,29 @@ where
             return self.handle_local_member_eviction(&group_id, event);
         }
 
-        // Save exporter secret for the new epoch
-        self.exporter_secret(&group_id)?;
+        // Save exporter secret for the new epoch, then sync the stored group metadata with the
+        // updated MLS group state
+        let stored = self
+            .exporter_secret(&group_id)
+            .and_then(|_| self.sync_group_metadata_from_mls(&group_id));
 
-        // Sync the stored group metadata with the updated MLS group state
-        self.sync_group_metadata_from_mls(&group_id)?;
+        if let Err(e) = stored {
+            // The commit is merged but cannot be stored (e.g. group data the storage layer
+            // refuses). The caller reports the commit as failed, so undo the merge with the
+            // snapshot taken above: a refused commit must leave the group as it was.
+            if self
+                .epoch_snapshots
+                .rollback_to_epoch(self.storage(), &group_id, current_epoch)
+                .is_err()
+            {
+                tracing::warn!(
+                    target: "mdk_core::messages::process_commit",
+                    "Failed to restore epoch {} after a commit that could not be stored",
+                    current_epoch
+                );
+            }
+            return Err(e);
+        }
 
         // Save a processed message so we don't reprocess
         let processed_message = super::create_processed_message_record(
